@@ -15,6 +15,7 @@
 //   mbxsys  <strict|flat> <kind> D <pts> => <outcome> [D]
 //   mbxcons <kind> <nvar> <ctrs> <fctrs> <ops> <pts>                       (internal consistency of a System object)
 //   mbxmut  <kind> <reject|unsupported|accept D <pts>> => <outcome> [D]
+//   mbxouter <kind> => <outcome>     (mutated text with an outer product column*row, accepted by the reference, not parsed)
 //   mbxload <file> => <outcome>
 //   mbxself <kind> <model of the generator> => <model of the reference reader>      (harness self check)
 //   hexitv  <lo> <hi> <mid> <degenerate> => <text>          hexread <text> => <interval>
@@ -532,9 +533,13 @@ int main(int argc, char** argv) {
       for (int k = 0; k < nm; k++) {
         string what; vector<string> mt = mbx::mutate(g.toks, r, what); string mtext = mbx::join_tokens(mt, NULL);
         if (mtext == g.text) continue;
+        mbx::outer_seen() = false;
         mbx::RefResult R = mbx::read_system(mtext);
+        bool outer = mbx::outer_seen();
         int nv = R.t == mbx::RefResult::ACCEPT ? R.m.nvar() : 0; string pts = points(r, nv);
         vector<string> rec = parse_sequence(mtext, g.text, 0, r.coin(20), 4);
+        if (outer && R.t == mbx::RefResult::ACCEPT && rec[0].compare(0, 7, "parsed ") != 0) { // an outer product column*row: the numeric layer cannot hold it (recorded finding)
+          EMIT("mbxouter %s => %s\n", what.c_str(), rec[0].substr(0, rec[0].find(' ')).c_str()); continue; }
         if (getenv("VERIF_TRACE")) fprintf(stderr, "MUT %ld.%d %s ref=%d(%s):\n%s\n", it, k, what.c_str(), (int)R.t, R.why.c_str(), mtext.c_str());
         string rt = ref_tokens(R);
         if (toolarge(rt) || toolarge(rec[0]) || toolarge(rec[1])) { EMIT("mbxskip too-large\n"); continue; }
